@@ -604,6 +604,40 @@ class Corpus:
         self.queries.append((n, k, kind, [str(a) for a in args], note))
         return n
 
+    def add_hostile_twins(self, names, per_name=3, max_queries=400):
+        """For each look-alike name (defs.HOSTILE) a few definitions of the corpus are repeated INSIDE a module that declares the
+        look-alike next to the enum, with all their queries: same model item, same expected observations.  A generated path that
+        stops being absolute (`::core::default::Default` -> `Default`) then resolves to the look-alike and the twin disagrees."""
+        import copy
+        base = [k for k, it in self.defs.items()
+                if not it.tparams and not it.lifetimes and it.kind == "enum" and it.variants and not self.meta[k].get("shadow_prelude")
+                and not self.meta[k].get("twin") and self.meta[k].get("twin", 0) is not None or False]
+        base = [k for k in self.defs if not self.defs[k].tparams and not self.defs[k].lifetimes and self.defs[k].variants
+                and not self.meta[k].get("shadow_prelude") and "twin" not in self.meta[k] and not self.meta[k].get("probe_only")
+                and any(v.fields for v in self.defs[k].variants)]
+        if not base:
+            base = [k for k in self.defs if not self.defs[k].tparams and not self.defs[k].lifetimes and self.defs[k].variants
+                    and not self.meta[k].get("shadow_prelude") and "twin" not in self.meta[k] and not self.meta[k].get("probe_only")]
+        if not base:
+            return
+        qs_of = {}
+        for q in self.queries:
+            qs_of.setdefault(q[1], []).append(q)
+        added = 0
+        for ni, name in enumerate(names):
+            step = max(1, len(base) // per_name)
+            for j in range(per_name):
+                k = base[(ni * 7 + j * step) % len(base)]
+                it = copy.deepcopy(self.defs[k])
+                it.hostile = [name]
+                meta = dict(self.meta[k])
+                meta["family"] = "hostile-scope/" + name
+                k2 = self.add_def(it, **meta)
+                for (n, _, kind, args, note) in qs_of.get(k, [])[:max_queries]:
+                    self.add_q(k2, kind, list(args), note=note)
+                added += 1
+        self.hostile_twins = added
+
     def write(self, skip_defs=()):
         with open(self.path, "w") as f:
             for k, it in self.defs.items():
